@@ -105,10 +105,11 @@ type vhStored struct {
 //   0: two records with deltas 0,1 (lastOffsetDelta 1)         1: one record, delta 0 (lastOffsetDelta 0)
 //   2: one record at delta 1, record 0 compacted (lastOffsetDelta 1)
 //   3: one record at delta 0, tail compacted (lastOffsetDelta 2)  4: empty retained batch (count 0, lastOffsetDelta 2)
+//   5: one record at delta 0, exactly one offset compacted off the tail (lastOffsetDelta 1)
 func vhLogV2(nb int, first int64) (wire []byte, stored []vhStored, next int64, firstBatchEnd int64) {
 	base := first
 	for b := 0; b < nb; b++ {
-		shape := vhChoose("batch_shape", 5)
+		shape := vhChoose("batch_shape", 6)
 		ts := int64(1600000000000 + 1000*b) // concrete: timestamp arithmetic is the subject of C05
 		mk := func(delta int64) (vhRec, vhStored) {
 			k := vhBytes("key", 1)
@@ -137,6 +138,10 @@ func vhLogV2(nb int, first int64) (wire []byte, stored []vhStored, next int64, f
 			stored = append(stored, s0)
 		case 4:
 			recs, lod = nil, 2
+		case 5:
+			r0, s0 := mk(0)
+			recs, lod = []vhRec{r0}, 1
+			stored = append(stored, s0)
 		}
 		wire = append(wire, vhEncBatchV2(base, 0, lod, ts, ts+int64(lod), int32(len(recs)), recs)...)
 		if b == 0 {
